@@ -202,6 +202,14 @@ var stringOf = func(cc *ssa.Call) []ssa.Value {
 
 var deepF = eng.OriginOpts{ThroughConvert: true, Interproc: true}
 
+// deepAt is deepF evaluated for a use at ins: phi operands arriving over branches that contradict ins's own branch facts
+// are not origins.
+func deepAt(ins ssa.Instruction) eng.OriginOpts {
+	o := deepF
+	o.At = ins
+	return o
+}
+
 // C03.SENDGUARD (shared with C04.CREATE, C05.UDP)
 func ruleSendGuard(c *Ctx, a *udpAnchors, rule string) {
 	p := c.P
@@ -364,7 +372,7 @@ func ruleKeyBind(c *Ctx, a *udpAnchors) {
 		}
 		okK := false
 		if keyArg != nil {
-			okK, _ = p.AllFrom(keyArg, deepF, func(v ssa.Value) bool {
+			okK, _ = p.AllFrom(keyArg, deepAt(ad), func(v ssa.Value) bool {
 				if _, fl, _, ok := eng.FieldLoad(v); ok && fl == "CryptoKey" {
 					return true
 				}
